@@ -140,6 +140,19 @@ def order (s : SeqState) (H : List Call) : List Call :=
 /-- the executable check run on recorded histories -/
 def linearizable (s : SeqState) (H : List Call) : Bool := isLinearization s (order s H)
 
+/-- reference implementation for tiny histories: try every permutation (used only to cross-check
+    `linearizable` on histories of at most 7 calls, kind `c07.synthsmall`) -/
+def insertEverywhere (c : Call) : List Call → List (List Call)
+  | [] => [[c]]
+  | d :: ds => (c :: d :: ds) :: (insertEverywhere c ds).map (d :: ·)
+
+def perms : List Call → List (List Call)
+  | [] => [[]]
+  | c :: cs => (perms cs).flatMap (insertEverywhere c)
+
+def linearizableBrute (s : SeqState) (H : List Call) : Bool :=
+  (perms H).any (isLinearization s)
+
 /-- the facts the go/ast extractor reports about sequencer.go (`c07.facts`) -/
 structure Facts where
   nextLocksFirst : Bool      -- NextSequenceNumber's body starts with s.mutex.Lock()
